@@ -198,12 +198,17 @@ def is_transfer_wrapper(prog: Program, fi: FuncInfo, cat: str) -> bool:
         return False
     parent = fi.parent
     # returned as second element of the tuple
+    from ..ctx import engine
+
     returned = False
-    for n in prog._own_nodes(parent.node):
-        if isinstance(n, ast.Return) and isinstance(n.value, ast.Tuple) and len(n.value.elts) == 2:
-            e = n.value.elts[1]
-            if isinstance(e, ast.Name) and e.id == fi.name:
-                returned = True
+    for p in engine(prog).paths(parent):
+        if p.exit[0] != "return":
+            continue
+        v = p.exit[1]
+        if not (isinstance(v, tuple) and v[0] == "tuple" and len(v[1]) == 2):
+            return False
+        if v[1][1] == ("global", fi.qual):
+            returned = True
     if not returned:
         return False
     # record precedes the delegated call
